@@ -142,7 +142,7 @@ def fanout_copy_rule(ctx, program, rid):
                       msg=f"{uid}: `{short(p)}` hands the same func_args dictionary to every subscriber: one function's decorator kwargs (merged in place by the trigger loop) leak into "
                       f"the other functions triggered by the same message", key="fan-out shares func_args", node=p, rel=uid.split("::")[0])
     f = program.func("state.py::State.notify_var_get")
-    ctx.check(any(isinstance(n, ast.Assign) and norm(n.targets[0]) == "notify_vars" and norm(n.value) == "new_vars.copy()" for n in body_walk(f)), rid, "state.py::State.notify_var_get",
+    ctx.check(any(isinstance(n, ast.Name) and n.id == "new_vars" and _is_copied(n) for n in ast.walk(f)), rid, "state.py::State.notify_var_get",
               "per-subscriber variable dictionary is a copy", msg="State.notify_var_get no longer copies new_vars: subscribers would share (and extend) one dictionary", key="notify_var_get copies",
               node=f, rel="state.py")
 
@@ -283,6 +283,17 @@ def run(ctx):
                     bad = f"{len(r['runs'])} run(s) although the filter evaluated to {fv!r}"
             ctx.check(bad is None, "R08.3", WATCH, f"legacy {kind}: filter value {fv!r} evaluated on the occurrence's arguments, one run iff truthy",
                       msg=f"legacy trigger_watch, {kind} occurrence, filter value {fv!r}: {bad}", key=f"legacy {kind} filter {fv!r}", node=tw, rel="trigger.py")
+        # an expression that raises for this message (a payload without the field it reads): no run, and the trigger goes on to the next message
+        from ..legacy import RAISES
+        recs, occ, _ = watch_occurrence(program, kind, filter_value=RAISES, user_kwargs=uk)
+        bad = None if recs else "no exit"
+        for r in recs:
+            if r["runs"]:
+                bad = f"{len(r['runs'])} run(s) although the expression raised"
+            elif "end of scenario" not in r["ended"]:
+                bad = f"the exception of the expression ends the trigger loop ({r['ended']}) instead of waiting for the next message: one bad message and the function is never triggered again"
+        ctx.check(bad is None, "R08.3", WATCH, f"legacy {kind}: an exception of the filter expression rejects the message only",
+                  msg=f"legacy trigger_watch, {kind} occurrence, filter expression raises: {bad}", key=f"legacy {kind} filter raises", node=tw, rel="trigger.py")
     # one task per occurrence
     for uid, n_exp in (("trigger.py::TrigInfo.call_action", 1), ("decorator.py::FunctionDecoratorManager.dispatch", 1)):
         f = program.func(uid)
